@@ -75,6 +75,7 @@ class ZkServer:
         self.pending = []           # queued (cb, event)
         self.before_write = None    # hook(client, op, path)
         self.on_op = None           # yield hook(client, op, path)
+        self.after_op = None        # hook(client, op, path) run after a delete was applied
         self.lock = threading.RLock()
         self.keep_log = True
         # order in which clients see children: 'sorted', or 'hash' (a real server returns them in no
@@ -468,6 +469,8 @@ class ZkFakeClient:
                 raise kx.BadVersionError()
             srv._delete_node(path, self, 'delete')
         self._after()
+        if srv.after_op is not None:
+            srv.after_op(self, 'delete', path)      # e.g. the reply is lost: the caller sees a ConnectionLoss
         return True
 
     def _delete_rec(self, path):
